@@ -4,7 +4,8 @@
    describe the ordered tree T; the theorems below say that then every traversal generator of
    the code (Model/Iter.v) returns what the pre-order walk of the child lists dictates. *)
 From Coq Require Import List Arith Bool.
-From BS Require Import Base.Sexp Model.Heap Model.Edit Model.Iter Spec.Tree Proofs.HeapBasics Proofs.Views Proofs.ExtractRep Proofs.InsertRep.
+From BS Require Import Base.Sexp Model.Heap Model.Edit Model.Iter Spec.Tree Proofs.HeapBasics Proofs.Views Proofs.ExtractRep Proofs.InsertRep Proofs.ParseRep.
+From BS Require Import Base.Types Model.Build Model.EditOps Proofs.EditBase Proofs.EditRep Proofs.ParseConsistent.
 Import ListNotations.
 
 (* what extract() hands back has no parent, no siblings and nothing before it — for every heap *)
@@ -110,3 +111,70 @@ Theorem C01_extract_root_rep : forall F T b h fuel,
   rep ((T, b) :: F) h -> length (pre T) <= fuel -> rep ((T, b) :: F) (extract fuel h (rid T)).
 Proof. exact extract_root_rep. Qed.
 Print Assumptions C01_extract_root_rep.
+
+(* After parsing: for every builder configuration and EVERY event sequence the tree builder sends,
+   the heap the parser leaves behind represents one tree rooted at the document object, whose
+   pre-order is the creation order of the elements, with the root outside the element chain -
+   and the same holds after every prefix of the events (so also for a tree inspected mid-parse). *)
+Theorem C01_parse_rep : forall cfg evs,
+  let b := feed cfg evs in
+  exists T, rid T = 0 /\ pre T = seq 0 (nxt (b_st b)) /\ rep [(T, false)] (hp (b_st b)).
+Proof. exact parse_rep. Qed.
+Print Assumptions C01_parse_rep.
+
+(* ---- every editing call, and every history of calls ----
+   [consistent s] (Proofs/EditRep.v): the heap of the state s represents some forest that covers
+   exactly the live allocated elements (all six links of every element agree with it; only a
+   BeautifulSoup object may stand outside its own element chain).  [wf_op_b] (Model/EditOps.v) is
+   the executable admissibility test the property's quantifier describes: targets exist and are
+   alive, arguments are plain strings or live elements from anywhere in the forest other than the
+   destination and its ancestors.  [apply_op] runs the model of the call (Model/Edit.v): insert
+   (multi-argument), append, extend, insert_before, insert_after, extract, replace_with, wrap,
+   unwrap, decompose, clear, .string=, smooth, with BeautifulSoup-object arguments expanded. *)
+
+(* one admissible call keeps the state a consistent forest *)
+Theorem C01_call_consistent : forall s o s',
+  consistent s -> wf_op s o -> apply_op s o = Ok s' -> consistent s'.
+Proof. exact op_consistent. Qed.
+Print Assumptions C01_call_consistent.
+
+Theorem C01_wf_op_b_sound : forall s o, consistent s -> wf_op_b s o = true -> wf_op s o.
+Proof. exact wf_op_b_sound. Qed.
+Print Assumptions C01_wf_op_b_sound.
+
+(* ANY finite history of calls (each applied when admissible and when it returns) keeps it so *)
+Theorem C01_history_consistent : forall ops s, consistent s -> consistent (run_history s ops).
+Proof. exact history_consistent. Qed.
+Print Assumptions C01_history_consistent.
+
+(* every fragment that was extracted, replaced, unwrapped or cleared out is the root of a tree of
+   the resulting forest: a self-contained tree with no parent, no siblings and a closed chain *)
+Theorem C01_fragments_detached : forall s,
+  consistent s ->
+  (forall x s', live s x -> op_extract s x = Ok s' -> root_fragment s' x) /\
+  (forall self args s', wf_op s (OReplaceWith self args) -> ~ In (AEl self) args ->
+     op_replace_with s self args = Ok s' -> root_fragment s' self) /\
+  (forall self s', wf_op s (OUnwrap self) -> op_unwrap s self = Ok s' -> root_fragment s' self) /\
+  (forall self s' c, live s self -> op_clear s self false = Ok s' -> In c (kids (hp s self)) -> root_fragment s' c).
+Proof. exact fragments_detached. Qed.
+Print Assumptions C01_fragments_detached.
+
+(* the executable check run by the extracted model on every reached state is sound for [consistent] *)
+Theorem C01_checker_sound : forall s, cons_b (abs_forest (nxt s) (hp s)) s = true -> consistent s.
+Proof. exact cons_b_consistent. Qed.
+Print Assumptions C01_checker_sound.
+
+(* THE PROPERTY, end to end: after parsing ANY event sequence under ANY builder configuration and
+   applying ANY finite history of admissible editing calls, the heap is a consistent forest ... *)
+Theorem C01_parse_then_edit : forall cfg evs ops,
+  consistent (run_history (b_st (feed cfg evs)) ops).
+Proof. exact parse_then_edit_consistent. Qed.
+Print Assumptions C01_parse_then_edit.
+
+(* ... in which every live element lies in a tree T with [rep1 (hp s) T b] - the premise of the
+   view theorems above (C01_next_elements ... C01_descendants), so all its navigation views are the
+   pre-order walk of the child lists *)
+Theorem C01_consistent_views_premise : forall s x, consistent s -> live s x ->
+  exists F T b, cons_with F s /\ In (T, b) F /\ In x (pre T) /\ rep1 (hp s) T b.
+Proof. exact consistent_views_premise. Qed.
+Print Assumptions C01_consistent_views_premise.
